@@ -48,6 +48,10 @@ func main() {
 	}
 	prop := os.Args[1]
 	deprecation.Noticer = io.Discard
+	if prop == "C12ONE" {
+		cmdC12One(os.Args[2], os.Args[3])
+		return
+	}
 	if prop == "OP" {
 		// one operation on a freshly parsed configuration in a process of its own: harness OP <yaml file> <operation>
 		doc, err := os.ReadFile(os.Args[2])
@@ -94,6 +98,8 @@ func main() {
 		cmdC05(*tier, *seed, *out, *stats, *replay)
 	case "C11":
 		cmdC11(*tier, *seed, *out, *stats, *replay)
+	case "C12":
+		cmdC12(*tier, *seed, *out, *stats, *replay)
 	case "C13":
 		cmdC13(*tier, *seed, *out, *stats, *replay)
 	case "C16", "C17":
